@@ -117,6 +117,9 @@ type SpecOpts struct {
 	UserErrorNode bool
 	MaxNodes      int
 	Spin          bool
+	// Derive: action nodes get branches whose patterns inspect the
+	// values their action produced (sub-arrays, nested keys).
+	Derive bool
 	// Lively: specs that keep moving -- message nodes end with a
 	// catch-all branch, action nodes with a default branch, targets
 	// are mostly existing nodes.
@@ -160,7 +163,7 @@ func GenPattern(t *rapid.T, det bool, label string) interface{} {
 			case 2:
 				m[key] = "??o"
 			default:
-				m[key] = rapid.SampledFrom([]string{"?x", "?y", "?n", "?t"}).Draw(t, fmt.Sprintf("%s.var%d", label, i))
+				m[key] = rapid.SampledFrom([]string{"?x", "?y", "?n", "?t", "?p", "?p"}).Draw(t, fmt.Sprintf("%s.var%d", label, i))
 			}
 		}
 		return m
@@ -338,10 +341,13 @@ func genBindingsPattern(t *rapid.T, label string) interface{} {
 
 
 // Instantiate replaces the variables of a pattern by values.
-func Instantiate(t *rapid.T, p interface{}, label string) interface{} {
+func Instantiate(t *rapid.T, p interface{}, label string, produced ...interface{}) interface{} {
 	switch pv := p.(type) {
 	case string:
 		if len(pv) > 0 && pv[0] == '?' {
+			if len(produced) > 0 && rapid.Bool().Draw(t, label+".ip") {
+				return jsongen.Copy(produced[rapid.IntRange(0, len(produced)-1).Draw(t, label+".ipi")])
+			}
 			return rapid.SampledFrom(msgVals).Draw(t, label+".iv")
 		}
 		return pv
@@ -352,13 +358,13 @@ func Instantiate(t *rapid.T, p interface{}, label string) interface{} {
 			if len(k) > 0 && k[0] == '?' {
 				kk = rapid.SampledFrom(msgKeys).Draw(t, label+".ik")
 			}
-			m[kk] = Instantiate(t, pv[k], label+"."+k)
+			m[kk] = Instantiate(t, pv[k], label+"."+k, produced...)
 		}
 		return m
 	case []interface{}:
 		a := make([]interface{}, len(pv))
 		for i, x := range pv {
-			a[i] = Instantiate(t, x, fmt.Sprintf("%s[%d]", label, i))
+			a[i] = Instantiate(t, x, fmt.Sprintf("%s[%d]", label, i), produced...)
 		}
 		return a
 	}
@@ -369,8 +375,16 @@ func Instantiate(t *rapid.T, p interface{}, label string) interface{} {
 // of one of the spec's message-branch patterns.
 func GenMessageFor(t *rapid.T, a *ASpec, label string) interface{} {
 	var pats []interface{}
+	var produced []interface{}
 	for _, name := range a.NodeNames() {
 		n := a.Nodes[name]
+		if n.Action != nil {
+			for _, op := range n.Action.Ops {
+				if op.Op == "set" && op.V != nil {
+					produced = append(produced, op.V)
+				}
+			}
+		}
 		if n.NoBranching || n.BranchType != "message" {
 			continue
 		}
@@ -383,7 +397,7 @@ func GenMessageFor(t *rapid.T, a *ASpec, label string) interface{} {
 	if len(pats) == 0 || rapid.IntRange(0, 3).Draw(t, label+".rnd") == 0 {
 		return GenMessage(t, label)
 	}
-	m := Instantiate(t, pats[rapid.IntRange(0, len(pats)-1).Draw(t, label+".pi")], label)
+	m := Instantiate(t, pats[rapid.IntRange(0, len(pats)-1).Draw(t, label+".pi")], label, produced...)
 	if mm, ok := m.(map[string]interface{}); ok && rapid.Bool().Draw(t, label+".noise") {
 		mm[rapid.SampledFrom([]string{"z", "c", "b"}).Draw(t, label+".nk")] = rapid.SampledFrom(msgVals).Draw(t, label+".nv")
 	}
@@ -455,10 +469,53 @@ func GenLivelySpec(t *rapid.T, o SpecOpts) *ASpec {
 			}
 			n.Branches = append(n.Branches, b)
 		}
+		if o.Derive {
+			var derived []ABranch
+			for oi, op := range n.Action.Ops {
+				if (op.Op == "set" || op.Op == "push") && rapid.Bool().Draw(t, fmt.Sprintf("%s.dv%d", l, oi)) {
+					var pat interface{}
+					switch vv := op.V.(type) {
+					case []interface{}:
+						if len(vv) > 0 {
+							pat = []interface{}{vv[0]}
+						} else {
+							pat = []interface{}{}
+						}
+					case map[string]interface{}:
+						m := map[string]interface{}{}
+						for _, k := range jsongen.SortedKeys(vv) {
+							m[k] = vv[k]
+							break
+						}
+						pat = m
+					default:
+						pat = op.V
+					}
+					if op.Op == "push" {
+						pat = []interface{}{op.V}
+						if !jsongen.IsScalar(op.V) {
+							pat = "?pv"
+						}
+					}
+					derived = append(derived, ABranch{HasPattern: true, Pattern: map[string]interface{}{op.K: pat}, Target: target(fmt.Sprintf("%s.dt%d", l, oi))})
+				}
+			}
+			n.Branches = append(derived, n.Branches...)
+		}
 		if rapid.IntRange(0, 9).Draw(t, l+".def") > 0 {
 			n.Branches = append(n.Branches, ABranch{Target: rapid.SampledFrom(mnodes).Draw(t, l+".defto")})
 		}
 		a.Nodes[name] = n
+	}
+	if o.Derive && rapid.Bool().Draw(t, "bindvar") {
+		// an action binds a pattern variable to a structured value; a
+		// message branch then uses that variable (its value becomes a
+		// sub-pattern)
+		an := a.Nodes[rapid.SampledFrom(anodes).Draw(t, "bindvar.a")]
+		val := jsongen.Value(t, jsongen.Opts{Depth: 2, Width: 2, Nums: []float64{0, 1, 2, 0.5}, Strs: []string{"a", "b"}, Keys: []string{"a", "b"}, SetLike: true}, "bindvar.v")
+		an.Action.Ops = append([]Op{{Op: "set", K: "?p", V: val}}, an.Action.Ops...)
+		mn := a.Nodes[rapid.SampledFrom(mnodes).Draw(t, "bindvar.m")]
+		mn.Branches = append([]ABranch{{HasPattern: true, Pattern: map[string]interface{}{"c": "?p"}, Target: rapid.SampledFrom(all).Draw(t, "bindvar.to")}}, mn.Branches...)
 	}
 	if o.UserErrorNode && rapid.IntRange(0, 3).Draw(t, "uerr") == 0 {
 		a.Nodes["error"] = &ANode{BranchType: "bindings", Branches: []ABranch{
@@ -467,4 +524,92 @@ func GenLivelySpec(t *rapid.T, o SpecOpts) *ASpec {
 		}}
 	}
 	return a
+}
+
+
+// MessagePatterns lists the patterns of the spec's message branches.
+func MessagePatterns(a *ASpec) []interface{} {
+	var pats []interface{}
+	for _, name := range a.NodeNames() {
+		n := a.Nodes[name]
+		if n.NoBranching || n.BranchType != "message" {
+			continue
+		}
+		for _, b := range n.Branches {
+			if b.HasPattern && b.Pattern != nil {
+				pats = append(pats, b.Pattern)
+			}
+		}
+	}
+	return pats
+}
+
+// Doc renders the abstract spec as a generic document with the key
+// names a spec author writes: JSON names (README, doc/by-example.md), or
+// the YAML names used by specs/*.yaml (lower-cased field names).  It is
+// written by hand -- not derived from core.Spec's struct tags -- so
+// that it describes the document format, not the current structs.
+// Native actions cannot be written down and are left out.
+func (a *ASpec) Doc(yamlKeys, jsonSyntax bool) map[string]interface{} {
+	key := func(jsonName, yamlName string) string {
+		if yamlKeys {
+			return yamlName
+		}
+		return jsonName
+	}
+	source := func(p *Prog) map[string]interface{} {
+		return map[string]interface{}{"interpreter": "ecmascript", "source": p.ES()}
+	}
+	doc := map[string]interface{}{"name": a.Name}
+	if a.ActionErrorBranches {
+		doc[key("actionErrorBranches", "actionerrorbranches")] = true
+	}
+	if a.ActionErrorNode != "" {
+		doc[key("actionErrorNode", "actionerrornode")] = a.ActionErrorNode
+	}
+	if a.NoAutoErrorNode {
+		doc[key("noErrorNode", "noautoerrornode")] = true
+	}
+	if jsonSyntax {
+		doc[key("patternSyntax", "patternsyntax")] = "json"
+	}
+	nodes := map[string]interface{}{}
+	for _, name := range a.NodeNames() {
+		an := a.Nodes[name]
+		n := map[string]interface{}{}
+		if an.Action != nil && !an.ActionNative {
+			n["action"] = source(an.Action)
+		}
+		if !an.NoBranching {
+			br := map[string]interface{}{}
+			if an.BranchType != "" {
+				br["type"] = an.BranchType
+			}
+			var list []interface{}
+			for _, ab := range an.Branches {
+				b := map[string]interface{}{}
+				if ab.Target != "" {
+					b["target"] = ab.Target
+				}
+				if ab.HasPattern && ab.Pattern != nil {
+					if jsonSyntax {
+						b["pattern"] = js(ab.Pattern)
+					} else {
+						b["pattern"] = jsongen.Copy(ab.Pattern)
+					}
+				}
+				if ab.Guard != nil && !ab.GuardNative {
+					b["guard"] = source(ab.Guard)
+				}
+				list = append(list, b)
+			}
+			if list != nil {
+				br["branches"] = list
+			}
+			n["branching"] = br
+		}
+		nodes[name] = n
+	}
+	doc["nodes"] = nodes
+	return doc
 }
